@@ -10,6 +10,10 @@ muts = json.load(open(os.path.join(ROOT, "mutants/mutants.json")))
 flt = [a for a in sys.argv[1:] if not a.startswith("--")]
 tier = "quick"
 if "--thorough" in sys.argv: tier = "thorough"
+# MUT_SHARD=i/n runs every n-th mutant starting at i (parallel shards)
+if os.environ.get("MUT_SHARD"):
+    i, n = map(int, os.environ["MUT_SHARD"].split("/"))
+    muts = muts[i::n]
 results = []
 for m in muts:
     if flt and not any(f in m["name"] for f in flt):
